@@ -39,7 +39,7 @@ INFO = {
 }
 EXPECTED_PROBES = ("after_help_run", "after_failed_run", "help_of_unparsable_default_sub", "lenient_command",
                    "shared_parser", "style_pair_from_same_factory", "style_customised_after_sibling",
-                   "repeat_table", "repeat_help", "repeat_trace")
+                   "repeat_table", "repeat_help", "repeat_trace", "same_raw_args_object_again")
 
 
 def setup():
@@ -51,15 +51,17 @@ def _env(cfg):
     os.environ["COLUMNS"], os.environ["LINES"] = str(cfg.get("width", 100)), "40"
 
 
-def run_line(app, inv, tokens, cfg):
+def run_line(app, inv, tokens, cfg, raw=None):
     from clikit.args import ArgvArgs
     _env(cfg)
     log = EventLog()
     out = SimOutputStream("out", log, ansi=cfg["ansi"])
     err = SimOutputStream("err", log, ansi=cfg["ansi"])
     n0 = len(inv)
+    if raw is None:
+        raw = ArgvArgs(["prog"] + list(tokens))
     try:
-        status = app.run(ArgvArgs(["prog"] + list(tokens)), SimInputStream(log, []), out, err)
+        status = app.run(raw, SimInputStream(log, []), out, err)
         outcome = ("status", status)
     except BaseException as e:
         outcome = ("raised", type(e).__name__, str(e)[:200])
@@ -291,7 +293,7 @@ def gen(S, tier):
             else:
                 toks = p + tail + [w.pick(["-q", "-vv", "--no-ansi", "--ansi", "-n", "-vvv"])]
             # each run has its own streams: whether they are a terminal varies from run to run
-            lines.append([k, toks, w.chance(0.5)])
+            lines.append([k, toks, w.chance(0.5), w.chance(0.15)])
         return {"class": "app", "cfg": cfg, "app": spec, "scripts": scripts, "lines": lines, "ops": [], "renders": []}
     if cls == "style":
         ops = []
@@ -424,13 +426,24 @@ def _exec_app(sc, res):
     if any(cmd.get("lenient") for p, cmd, ch in apptree.leaves(spec)):
         res.probe("lenient_command")
     hist = []  # (kind, failed)
+    raws = []  # raw-argument objects of earlier runs
     HELP = ("help_cmd", "help_path", "path_help", "dash_h")
     for i, line in enumerate(sc["lines"]):
         kind, toks = line[0], line[1]
         lcfg = dict(cfg, ansi=line[2]) if len(line) > 2 else cfg
         res.steps += 1
         toks_before = list(toks)
-        got = run_line(app, inv, toks, lcfg)
+        raw = None
+        if len(line) > 3 and line[3] and raws:
+            # the caller passes the very same raw-arguments object as for an earlier run
+            raw, toks = raws[-1]
+            toks_before = list(toks)
+            res.probe("same_raw_args_object_again")
+        else:
+            from clikit.args import ArgvArgs
+            raw = ArgvArgs(["prog"] + list(toks))
+            raws.append((raw, list(toks)))
+        got = run_line(app, inv, toks, lcfg, raw)
         want = zygote.reference(ME, "ref_run_line", spec, scripts, toks_before, lcfg)
         res.events.append((i, kind, digest(got)))
         if list(toks) != toks_before:
